@@ -9,6 +9,10 @@ for f in sorted(glob.glob(os.path.join(os.path.dirname(__file__), "..", "seeded"
     caught = [r["check"] for r in m["ran"] if r["rc"] == 1]
     missed = [r["check"] for r in m["ran"] if r["rc"] == 0]
     err = [r["check"] for r in m["ran"] if r["rc"] not in (0, 1)]
+    if m.get("status"):
+        rows.append("| %s | %s | %s | ok at %s | (%s) caught by C04 there; obsolete since F8 |" % (
+            m["name"], m["property"], ", ".join(os.path.basename(x) for x in files), m.get("base_commit"), "pre-repair tree"))
+        continue
     rows.append("| %s | %s | %s | %s | %s%s |" % (m["name"], m["property"], ", ".join(os.path.basename(x) for x in files),
                 "ok" if m["demo_rc_unmodified"] == 0 and m["demo_rc_with_patch"] != 0 else "DEMO?",
                 ", ".join(caught) or "-", (" (quiet: %s)" % ", ".join(missed)) if missed else "") + (" ERR:%s" % err if err else ""))
